@@ -18,6 +18,13 @@ On the two CPU flavours the instruction that performs a port access is generated
 every start offset that makes the operand cover the port, immediate / register / IMEM-to-IMEM forms, all
 internal-memory addressing forms; the history is told what the instruction means byte by byte.
 
+Round 4: the Python machine runs with a generated interrupt mask (KEY bit clear: polling firmware / key interrupt
+masked) and firmware acknowledges the key interrupt without RETI (store / AND / host write clearing ISR bit 2), so
+every later rise of the request is judged, not only the first; the Rust models run under the keyboard configurations
+a device model applies (PC-E500 default, IQ-7000: wake event on a new press, no event mirroring, raw key-input
+register), with "injected taps" bursts, and `irq_count` is observed; operations the keyboard rejects (unknown key,
+foreign port) are interleaved and must leave no trace.
+
 Oracle: history invariants only (c14_hist.judge) -- no cross-model verdict; thresholds, polarity, capacity and
 initial strobe registers are read back from the object under test.
 """
@@ -39,12 +46,21 @@ RULE = ("seeded histories (<= 120..300 ops) over press/release/strobe writes/sca
         "mid-debounce strobe change, long-hold, burst and parked-strobe sub-sequences; every history is executed on "
         "the Python matrix, the Python handler, the Rust matrix, the Rust CoreRuntime (port accesses as executed "
         "instructions of generated width/start offset/addressing form) and, every second history, the Python "
-        "machine (same, plus one scan per executed instruction). Non-trivial = the model produced >= 1 debounced "
+        "machine (same, plus one scan per executed instruction; generated interrupt mask with the KEY bit clear, "
+        "1/4 of the histories with polling-firmware acknowledges of ISR bit 2 as instructions). Rust models run under "
+        "a generated device keyboard configuration (default 4/6, IQ-7000 1/6, raw KIL 1/6); injected-tap bursts and "
+        "rejected operations (unknown key / foreign port) are interleaved. Non-trivial = the model produced >= 1 debounced "
         "press event and the history has two held keys sharing a row, a strobe change while a key is held, or a "
         "queue overflow; distinct = hash of (model, configuration, operation list).")
 
 MODELS = ("py-matrix", "py-handler", "py-cpu", "rs", "rs-cpu")
-RS_ONLY_VERBS = ("wfifo", "ack", "iclr", "irq")
+RS_ONLY_VERBS = ("wfifo", "ack", "iclr", "irq", "imr")
+# interrupt-mask values firmware may run with while it *polls* the keyboard: the KEY bit (0x04) is clear in all of
+# them, so the key interrupt is never delivered and the generated program stays a straight line
+IMR_MASKED = (0x00, 0x00, 0x00, 0x80, 0x80, 0x8B, 0xFB, 0x7B, 0x03, 0x08, 0x81)
+# keyboard configurations a device model applies (sc62015/core/src/device.rs): the PC-E500 default, and the IQ-7000
+# set-up (queue mirroring of scan events off, wake event on any new physical press, undebounced key-input register)
+KBD_MODES = ((), (), (), (), ("iq7000",), ("raw_kil",))
 THRESH = (1, 1, 2, 2, 3, 4, 5, 6, 6)
 REPEAT = (0, 1, 2, 6, 24)
 
@@ -92,7 +108,9 @@ def gen_history(st: Stream, max_ops: int) -> Dict[str, Any]:
         "repeat_enabled": not st.chance(1, 8),
         "mti_period": 2 if st.chance(1, 10) else 1,
     }
-    polling = st.chance(1, 8)          # firmware that clears ISR bit 2 without RETI / toggles the enable
+    polling = st.chance(1, 4)          # firmware that clears ISR bit 2 without RETI / toggles the enable
+    cfg["imr"] = st.choice(IMR_MASKED) if not st.chance(1, 6) else (st.below(256) & ~0x04)
+    cfg["kbd_mode"] = list(st.choice(KBD_MODES))
     rs_only = st.chance(1, 12)         # uses matrix codes that have no Python key name
     timer_ticks = st.chance(1, 2)      # Rust flavour of a tick: TimerContext path or direct scan_tick
     P, R = cfg["press_threshold"], cfg["release_threshold"]
@@ -168,7 +186,7 @@ def gen_history(st: Stream, max_ops: int) -> Dict[str, Any]:
         ops.extend(_strobe_ops(cols, ah, st))
 
     while len(ops) < max_ops:
-        r = st.below(212)
+        r = st.below(236)
         if r < 24:
             strobe_some()
         elif r < 54:
@@ -258,10 +276,58 @@ def gen_history(st: Stream, max_ops: int) -> Dict[str, Any]:
             ops.append(["wfifo"])
         elif r < 200:
             if polling:
-                if st.chance(1, 2):
+                r3 = st.below(6)
+                if r3 < 3:
                     ops.append(["iclr"])
-                else:
+                elif r3 < 5:
                     ops.append(["irq", 1 if st.chance(1, 2) else 0])
+                else:
+                    ops.append(["imr", st.choice(IMR_MASKED)])
+        elif 212 <= r < 224:
+            if polling:
+                # polling firmware services a key without RETI: the key is debounced (the key interrupt is raised),
+                # firmware reads the key-input register (or not), clears ISR bit 2 by a store, and goes on; later
+                # the key is released and the same happens for the release event
+                k = st.choice(keys)
+                ops.extend(_strobe_ops(cols if st.chance(2, 3) else [k >> 3], ah, st))
+                if st.chance(1, 3):
+                    ops.append(["imr", st.choice(IMR_MASKED)])
+                if k not in held:
+                    ops.append(["press", k])
+                    held.add(k)
+                ticks(P + st.below(2))
+                for _ in range(1 + st.below(2)):
+                    if not st.chance(1, 4):
+                        ops.append(["kil", 0])
+                    ops.append(["iclr"])
+                    ticks(1 + st.below(3))
+                if st.chance(1, 2):
+                    ops.append(["release", k])
+                    held.discard(k)
+                    ticks(R + st.below(2))
+                    if not st.chance(1, 4):
+                        ops.append(["kil", 0])
+                    ops.append(["iclr"])
+                    ticks(1 + st.below(3))
+            else:
+                ticks(tick_count())
+        elif 224 <= r < 232:
+            # a host bridge types through the injection entry point: taps (press + release injected back to back)
+            # of up to five keys -- four taps are exactly the queue's capacity
+            if st.chance(1, 3):
+                ops.append(["consume", 0])
+            n_taps = st.choice((1, 2, 4, 4, 5))
+            for i in range(n_taps):
+                k = keys[i % len(keys)] if not st.chance(1, 4) else st.choice(keys)
+                ops.append(["inject", k, 0])
+                held.add(k)
+                if st.chance(1, 5):
+                    ticks(1)
+                ops.append(["inject", k, 1])
+                held.discard(k)
+        elif r >= 232:
+            # an operation the keyboard rejects (unknown key, a port that is not a keyboard register): no trace
+            ops.append(["bad", st.choice(("press", "release", "inject", "port-read", "port-write")), st.below(64)])
         else:
             # firmware parks the strobes (no column selected) while a release debounce is still pending: a key is
             # debounced, everything (or just that key) is released, within the release interval all strobes are
@@ -300,12 +366,13 @@ def gen_history(st: Stream, max_ops: int) -> Dict[str, Any]:
     return {"cfg": cfg, "ops": ops, "rs_only": rs_only, "polling": polling, "cpu_seed": st.u32()}
 
 
-def ops_for_model(ops: List[List[Any]], model: str, cpu_seed: int = 0) -> List[List[Any]]:
+def ops_for_model(ops: List[List[Any]], model: str, cpu_seed: int = 0,
+                  cfg: Optional[Dict[str, Any]] = None) -> List[List[Any]]:
     """Translate the abstract (Rust-dialect) history into the op set a model has."""
     if model == "rs":
-        return [list(o) for o in ops]
+        return [list(o) for o in ops if o[0] != "imr"]
     if model in ("rs-cpu", "py-cpu"):
-        return cpu_ops(ops, cpu_seed, model)
+        return cpu_ops(ops, cpu_seed, model, int((cfg or {}).get("imr", 0)))
     out: List[List[Any]] = []
     for o in ops:
         v = o[0]
@@ -322,15 +389,26 @@ def ops_for_model(ops: List[List[Any]], model: str, cpu_seed: int = 0) -> List[L
     return out
 
 
-def cpu_ops(ops: List[List[Any]], cpu_seed: int, model: str) -> List[List[Any]]:
+def cpu_ops(ops: List[List[Any]], cpu_seed: int, model: str, imr0: int = 0) -> List[List[Any]]:
     """CPU flavour: strobe writes and KIL reads become instructions (c14_cpu) with a generated operand width, start
     offset and addressing form; a store that covers both strobe registers writes the second one too (mostly its
-    last written value, sometimes a new one -- the history is told what the bytes mean either way)."""
+    last written value, sometimes a new one -- the history is told what the bytes mean either way).  On the Python
+    machine the polling-firmware operations are instructions too: `iclr` (acknowledge the key interrupt without
+    RETI) becomes a store / AND / host write that clears ISR bit 2, `imr` a store to the interrupt mask, and the
+    queue is consumed the way a machine consumes it -- by a key-input read on the bus."""
     st = Stream(cpu_seed, 0xC14C)
     last: Dict[str, Optional[int]] = {"kol": None, "koh": None}
+    imr = imr0 & 0xFF
     out: List[List[Any]] = []
     for o in ops:
         v = o[0]
+        if v == "iclr" and model == "py-cpu":
+            out.append(CPU.isr_ack(st, imr, model))
+            continue
+        if v == "imr" and model == "py-cpu":
+            imr = int(o[1]) & 0xFF
+            out.append(CPU.imr_write(st, imr, model))
+            continue
         if v in RS_ONLY_VERBS:
             continue
         if v in ("ttick", "scan"):
@@ -349,7 +427,8 @@ def cpu_ops(ops: List[List[Any]], cpu_seed: int, model: str) -> List[List[Any]]:
         elif v == "kil":
             out.append(CPU.kil_load(st, model))
         elif v == "consume":
-            out.append(["consume"])
+            # the Python machine has no consume call of its own: its queue is consumed by a key-input read on the bus
+            out.append(["consume"] if model == "rs-cpu" else ["hkil"])
         else:
             out.append(list(o))
     return out
@@ -361,6 +440,22 @@ def cpu_ops(ops: List[List[Any]], cpu_seed: int, model: str) -> List[List[Any]]:
 
 def _ev_dict(e: Any) -> Dict[str, Any]:
     return {"code": int(e.code), "release": bool(e.release), "repeat": bool(e.repeat)}
+
+
+def _py_bad(h: Any, m: Any, kind: str, x: int) -> bool:
+    """An operation the keyboard has to reject: a key name that does not exist, a port that is not a keyboard
+    register.  Returns True when the object reported the rejection (False / None)."""
+    name = f"KEY_NOT_A_KEY_{x}"
+    if kind == "port-read" and h is not None:
+        return h.handle_register_read(0xF3 + (x % 10)) is None
+    if kind == "port-write" and h is not None:
+        return not h.handle_register_write((0xE0 + (x % 16)) if x & 16 else (0xF3 + (x % 10)), (x * 37) & 0xFF)
+    if kind == "inject":
+        return not m.inject_event(name, release=bool(x & 1))
+    if kind == "release":
+        (h or m).release_key(name)
+        return True
+    return not (h or m).press_key(name)
 
 
 def exec_py(case: Dict[str, Any]) -> Tuple[Dict[str, Any], List[Dict[str, Any]]]:
@@ -442,6 +537,8 @@ def exec_py(case: Dict[str, Any]) -> Tuple[Dict[str, Any], List[Dict[str, Any]]]
         elif v == "pop":
             rec["popped"] = m.pop_fifo()
             rec["consumed"] = True
+        elif v == "bad":
+            rec["rejected"] = _py_bad(h, m, o[1], int(o[2]))
         else:
             raise HarnessError(f"C14: op {v!r} is not defined for model {model}")
         rec["ticks"] = [{"certain": True, "events": [_ev_dict(e) for e in evs]} for evs in calls]
@@ -487,7 +584,12 @@ def exec_pycpu(case: Dict[str, Any]) -> Tuple[Dict[str, Any], List[Dict[str, Any
     # keyboard-interrupt enable of the machine (a snapshot field; set the way pce500/tests/test_snapshot_roundtrip.py
     # does): when on, a pending key request makes the emulator read KIL itself before each instruction
     emu._kb_irq_enabled = bool(cfg["irq_enabled"])
-    mem.write_byte(INT + 0xFB, 0x00)     # IMR: nothing is delivered, the program is a straight line
+    # IMR is a generated configuration with the KEY bit clear (polling firmware / key interrupt masked): nothing is
+    # delivered, the program is a straight line
+    imr0 = int(cfg.get("imr", 0)) & 0xFF
+    if imr0 & 0x04:
+        raise HarnessError("C14: the Python machine flavour needs an interrupt mask with the KEY bit clear")
+    mem.write_byte(INT + 0xFB, imr0)
     log: List[List[Any]] = []            # time-ordered: ["t", events, fifo] | ["k", fifo] | ["w"]
     orig_scan, orig_read, orig_write = h.scan_tick, h.handle_register_read, h.handle_register_write
 
@@ -525,11 +627,20 @@ def exec_pycpu(case: Dict[str, Any]) -> Tuple[Dict[str, Any], List[Dict[str, Any
             "repeat_enabled": True, "capacity": int(KM.FIFO_SIZE), "active_high": bool(m.columns_active_high),
             "kol": int(m.kol), "koh": int(m.koh), "fifo": snapshot()}
     info.update(irq_view())
+    info["latch_ctx"] = " [the machine's key latch was still set from an earlier event]"
     obs: List[Dict[str, Any]] = []
+    prev_fifo: List[int] = snapshot()
+
+    def pending_seen(final: List[int]) -> bool:
+        # was an event pending at any observed point of this operation (start, every tick / key-input read, end)?
+        return bool(prev_fifo) or bool(final) or any(bool(e[-1]) for e in log if e[0] in ("t", "k"))
+
     try:
         for idx, o in enumerate(case["ops"]):
             v = o[0]
             del log[:]
+            if obs:
+                prev_fifo = list(obs[-1]["fifo"])
             base: Dict[str, Any] = {"verb": v, "args": list(o[1:]), "op": idx, "ticks": []}
             if v == "press":
                 emu.press_key(names[o[1]])
@@ -541,6 +652,18 @@ def exec_pycpu(case: Dict[str, Any]) -> Tuple[Dict[str, Any], List[Dict[str, Any
             elif v == "consume":
                 h.consume_pending_events()
                 base["consumed"] = True
+            elif v == "bad":
+                base["rejected"] = _py_bad(emu if o[1] in ("press", "release") else h, m, o[1], int(o[2]))
+            elif v == "hkil":
+                # key-input read from the host side of the machine's bus (the Python machine consumes its queue
+                # on every bus read of the register)
+                base["verb"] = "kil"
+                base["kil"] = int(mem.read_byte(INT + 0xF2)) & 0xFF
+                base["consumed"] = True
+            elif v == "hw":
+                # firmware-visible register written from the host side of the bus: ["hw", offset, "and"|"set", value]
+                cur = int(ext[len(ext) - 256 + int(o[1])]) & 0xFF
+                mem.write_byte(INT + int(o[1]), (cur & int(o[3])) if o[2] == "and" else int(o[3]) & 0xFF)
             elif v == "x":
                 meta = o[7]
                 base["verb"] = meta["kind"]
@@ -567,6 +690,7 @@ def exec_pycpu(case: Dict[str, Any]) -> Tuple[Dict[str, Any], List[Dict[str, Any
                     log.append(["t", [], snapshot()])
                 recs = _segment(base, meta, ret, list(log), snapshot())
                 recs[-1].update(irq_view())      # ISR is sampled at instruction boundaries only
+                recs[-1]["pending_seen"] = pending_seen(recs[-1]["fifo"])
                 obs.extend(recs)
                 continue
             else:
@@ -574,6 +698,7 @@ def exec_pycpu(case: Dict[str, Any]) -> Tuple[Dict[str, Any], List[Dict[str, Any
             base["ticks"] = [{"certain": True, "events": e[1]} for e in log if e[0] == "t"]
             base["fifo"] = snapshot()
             base.update(irq_view())
+            base["pending_seen"] = pending_seen(base["fifo"])
             obs.append(base)
     finally:
         try:
@@ -648,7 +773,7 @@ def normalise_rs(case: Dict[str, Any], res: Dict[str, Any]) -> Tuple[Dict[str, A
         rec: Dict[str, Any] = {"verb": v, "args": list(o[1:]), "fifo": list(r["fifo"]),
                                "isr": None if r.get("isr") is None else int(r["isr"]),
                                "irq_enabled": bool(r["irq_enabled"]), "latched": bool(r.get("latched", False)),
-                               "ticks": []}
+                               "irq_count": r.get("irq_count"), "ticks": []}
         ret = r.get("ret") or {}
         after = rec["fifo"]
         if v == "x":
@@ -761,9 +886,20 @@ def _labels(case: Dict[str, Any], facts: Dict[str, Any], viols: List[Violation])
                     ("repeat_events", "repeat-event"), ("kil_nonzero", "kil-nonzero"), ("keyi_rises", "keyi-rise"),
                     ("redundant_press", "redundant-press"), ("redundant_release", "redundant-release"),
                     ("chatter", "chatter"), ("lossy", "lossy-tick"), ("parked_release", "parked-release-tick"),
-                    ("cpu_strobe_stores", "cpu-strobe-store"), ("cpu_wide_strobe_stores", "cpu-wide-strobe-store")):
+                    ("cpu_strobe_stores", "cpu-strobe-store"), ("cpu_wide_strobe_stores", "cpu-wide-strobe-store"),
+                    ("keyi_clears", "keyi-cleared"), ("keyi_rerises", "keyi-rise-after-clear"),
+                    ("wake_events", "wake-event"), ("inject_fresh_press", "inject-press-of-unheld-key"),
+                    ("full_queue", "queue-full"), ("rejected_ops", "rejected-op")):
         if facts[f]:
             lb.append(f"saw:{name}")
+    mode = case["cfg"].get("kbd_mode") or []
+    if case["model"] in ("rs", "rs-cpu"):
+        lb.append("rs-kbd-mode:" + ("+".join(mode) if mode else "default"))
+    if case["model"] == "py-cpu":
+        imr = int(case["cfg"].get("imr", 0))
+        lb.append("py-cpu:imr-" + ("zero" if imr == 0 else ("irm-set" if imr & 0x80 else "irm-clear")))
+        if facts["keyi_clears"] and facts["keyi_rerises"]:
+            lb.append("py-cpu:keyi-acknowledged-and-raised-again")
     if case["model"] in ("rs", "rs-cpu"):
         lb.append("rs:irq-" + ("on" if case["cfg"]["irq_enabled"] else "off"))
     if case["model"] == "py-cpu":
@@ -787,7 +923,7 @@ def _shard(task: Tuple[int, int, str, int, int]) -> Report:
             if model == "py-cpu" and j % 2 == 0:
                 continue                      # the Python machine is the slowest model: every second history
             cases.append({"model": model, "cfg": hist["cfg"],
-                          "ops": ops_for_model(hist["ops"], model, hist["cpu_seed"])})
+                          "ops": ops_for_model(hist["ops"], model, hist["cpu_seed"], hist["cfg"])})
     results = run_cases(cases)
     for case, (viols, facts) in zip(cases, results):
         for v in viols:
@@ -817,8 +953,24 @@ ASSUMPTIONS = [
     "repeat cadence is asserted only inside clean windows (key continuously held and strobed at every tick); delay/"
     "interval 0 is read as 'next tick' for the only-if direction, and no repeat is *required* when interval == 0",
     "queue: at least capacity-1 entries are retained on overflow (the Python ring buffer keeps 7 of 8)",
-    "KEYI clause is checked on the Rust composition KeyboardMatrix + TimerContext with the closure CoreRuntime uses; "
-    "the Python KEYI path lives in pce500/emulator.py (C12) and is not covered here",
+    "KEYI clause is checked on the Rust composition KeyboardMatrix + TimerContext with the closure CoreRuntime uses, "
+    "and on the Python machine (py-cpu) for polling firmware: interrupt mask generated with the KEY bit clear, so "
+    "nothing is delivered; delivery / RETI flows are C12's",
+    "py-cpu KEYI: ISR bit 2 is sampled at operation boundaries; a rise inside an operation is justified when the queue "
+    "was non-empty at any observed point of the operation (start, after each tick, at each key-input read, end) and "
+    "the machine's keyboard-interrupt enable is on; firmware acknowledges (store / AND / host write to ISR, 16-bit "
+    "store at IMR) only ever clear bit 2 and never set a status bit; the machine's queue is consumed through bus "
+    "reads of the key-input register only (the handler's consume call behind the machine's back is not used)",
+    "Rust device configurations: 'iq7000' = disable_fifo_mirroring + set_keyi_on_any_press(true) + set_raw_kil(true) "
+    "as in sc62015/core/src/device.rs. With wake-on-press a press of a key that is not held enqueues one make event "
+    "at the press (keyboard.rs comment 'Wake on any new physical press'), a repeated press none; with mirroring off "
+    "the per-key event grammar, its timing and the repeat cadence are NOT asserted (only queue accounting, KEYI and "
+    "the KIL clauses); combinations no device uses (wake-on-press with mirroring on, mirroring off alone) are not "
+    "generated",
+    "KeyboardMatrix::irq_count() may not advance by more than the number of events an operation enqueued (requests "
+    "without events); not judged for operations whose events are invisible (Rust KIL read)",
+    "rejected operations (unknown key name / matrix code >= 128, read or write of a port other than 0xF0..0xF2 through "
+    "the keyboard's own handler) are no-ops of the history",
     "injected events are taken as given (they reset the key's grammar position), only their queueing is checked",
     "CPU flavours (rs-cpu, py-cpu): a port access is an executed instruction; the history is told only what the "
     "instruction means architecturally -- a little-endian store of w bytes at IMEM offset s writes byte i to s+i, the "
@@ -831,11 +983,10 @@ ASSUMPTIONS = [
     "PCE500KeyboardHandler.scan_tick, the order of ticks / KIL sampling / strobe writes inside one step is taken from "
     "position markers on the handler's register read/write entry points; a step in which KIL was read through the "
     "bus (by the instruction, or by the emulator itself while an interrupt request is pending) counts as an explicit "
-    "consumption of the queue; timers are off and IMR=0 (straight-line program); ISR bit 2 is sampled at instruction "
-    "boundaries and judged against the machine's _kb_irq_enabled (a generated configuration)",
+    "consumption of the queue; timers are off and the KEY bit of IMR is clear (straight-line program); ISR bit 2 is "
+    "sampled at instruction boundaries and judged against the machine's _kb_irq_enabled (a generated configuration)",
     "py-handler: every call of PCE500KeyboardHandler.scan_tick (explicit, or inside a KIL read) is a scan tick",
-    "non-default Rust modes (raw_kil, keyi_on_any_press, disable_fifo_mirroring, scan disabled) and Python "
-    "scan_enabled=False / KSD masking / release_all_keys are not explored",
+    "Rust scan_enabled=false, Python scan_enabled=False / KSD masking / release_all_keys are not explored",
 ]
 
 
